@@ -73,9 +73,9 @@ theorem stream_roundtrip (reset : Bool) (all : List (Ty × Val)) (hcons : namesC
     simp only [itemOK, Bool.or_eq_true, Bool.and_eq_true, Bool.not_eq_true'] at hitem
     have step : ∃ fst1 a1, (fmtTop fst0 t v).1 = fst1 ∧
         analyzeTop a (fmtTop fst0 t v).2 = .ok (a1, (t, v)) ∧ Coupled all fst1 a1 := by
-      rcases hitem with ⟨⟨⟨hp, hw⟩, hv⟩, hb⟩ | ⟨hg, hk⟩
+      rcases hitem with ⟨⟨⟨⟨hp, hw⟩, hv⟩, hb⟩, he⟩ | ⟨hg, hk⟩
       · -- a plain value: both tables unchanged
-        obtain ⟨h1, h2⟩ := roundtrip_plain fst0 a t v hp hw hv hb
+        obtain ⟨h1, h2⟩ := roundtrip_plain fst0 a t v hp hw hv hb he
         exact ⟨fst0, a, h1, h2, hinv0⟩
       · -- a value of a named type
         cases t with
@@ -83,7 +83,7 @@ theorem stream_roundtrip (reset : Bool) (all : List (Ty × Val)) (hcons : namesC
           cases v with
           | named v' =>
             simp only [namedTopGuard, Bool.and_eq_true, Bool.not_eq_true', Option.isNone_iff_eq_none] at hg
-            obtain ⟨⟨⟨⟨⟨⟨⟨hok', hp⟩, hw⟩, hv⟩, hnn⟩, hb⟩, hod⟩, hen⟩ := hg
+            obtain ⟨⟨⟨⟨⟨⟨⟨⟨hok', hp⟩, hw⟩, hv⟩, hnn⟩, hb⟩, hod⟩, hen⟩, herr⟩ := hg
             have hku : noUnionElems u = true := by simpa [noUnionElems] using hk
             by_cases hh : fst0.hasName (.named n u) = true
             · -- later occurrence: the name is bound, by consistency to this very type
@@ -111,11 +111,11 @@ theorem stream_roundtrip (reset : Bool) (all : List (Ty × Val)) (hcons : namesC
               have ha : alookup n a.names = some (.named n u) := by
                 have := (hinv0 n t' hb').2
                 rwa [hbind t' hb'] at this
-              obtain ⟨h1, h2⟩ := named_later fst0 a n u v' hp hw hku hen hv hnn hname hh ha
+              obtain ⟨h1, h2⟩ := named_later fst0 a n u v' hp hw hku hen hv hnn herr hname hh ha
               exact ⟨fst0, a, h1, h2, hinv0⟩
             · -- first occurrence in this scope
               have hh' : fst0.hasName (.named n u) = false := by simpa using hh
-              obtain ⟨h1, h2⟩ := named_top fst0 a n u v' hok' hp hw hv hnn hb hod hen hh'
+              obtain ⟨h1, h2⟩ := named_top fst0 a n u v' hok' hp hw hv hnn hb hod hen herr hh'
               refine ⟨fst0.saveType n (.named n u), aPush a n (.named n u), h1, h2, ?_⟩
               intro m t'' hb''
               by_cases hmn : n = m
